@@ -399,33 +399,71 @@ func c19FixedSize(c *Ctx) {
 	if fn == nil {
 		return
 	}
-	for _, want := range []int64{64, 32} {
-		found := false
-		for _, b := range fn.Blocks {
-			iff := lastIf(b)
-			if iff == nil {
-				continue
-			}
+	// Path rule: on every path on which the header's type was found equal to the constant of a
+	// fixed-size element, no element data is read before the header's size was found equal to
+	// that element's size.  The comparison may be written inline, hoisted before the switch or
+	// taken from a lookup helper - the explorer evaluates the integers.
+	type elem struct {
+		name string
+		size int64
+	}
+	for _, el := range []elem{{"CaFormatEntry", 64}, {"CaFormatDevice", 32}} {
+		typeConst := c.constVal(el.name)
+		isHdrField := func(st *State, v ssa.Value, field string) bool {
+			return hasOrigin(st.Resolve(v), func(o string) bool { return o == "field:FormatHeader."+field })
+		}
+		var bad []string
+		reads := 0
+		h := &Hooks{MaxVisits: 2, MaxPaths: 200000}
+		h.Branch = func(st *State, iff *ssa.If, taken bool) {
 			cm, truth, ok := cmpOf(iff.Cond)
-			if !ok || (cm.op != token.NEQ && cm.op != token.EQL) {
-				continue
+			if !ok || (cm.op != token.EQL && cm.op != token.NEQ) {
+				return
 			}
-			k, isK := cm.y.(*ssa.Const)
-			if !isK || k.Value == nil || k.Int64() != want || !strings.HasSuffix(locKey(cm.x), ".Size") {
-				continue
-			}
-			// the unequal edge ends in a non-nil error
-			neqOnTrue := (cm.op == token.NEQ) == truth
-			to := b.Succs[1]
-			if neqOnTrue {
-				to = b.Succs[0]
-			}
-			bad := c.edgeMustFail(fn, b, to, nil)
-			if len(bad) == 0 {
-				found = true
+			equal := (cm.op == token.EQL) == (taken == truth)
+			for _, pr := range [][2]ssa.Value{{cm.x, cm.y}, {cm.y, cm.x}} {
+				subj, other := pr[0], pr[1]
+				if isHdrField(st, subj, "Type") {
+					if k, isK := st.Resolve(other).(*ssa.Const); isK && k.Value != nil && equal {
+						if k.Value.ExactString() == typeConst {
+							st.Flags["type"] = 1
+						} else {
+							st.Flags["othertype"] = 1
+						}
+					}
+				}
+				if isHdrField(st, subj, "Size") && equal {
+					if ov := st.Eval(other); ov.Int != nil && *ov.Int == el.size {
+						st.Flags["size"] = 1
+					}
+				}
 			}
 		}
-		c.verdict(found, fmt.Sprintf("FormatDecoder.Next:fixed-size-%d", want), fn.Pos(), fmt.Sprintf("an element of fixed size %d is rejected when its size field differs", want), fmt.Sprintf("no rejecting check of the size field against %d", want))
+		h.Call = func(st *State, call *ssa.Call) map[int]Val {
+			name := callee(call)
+			if strings.HasPrefix(name, "(desync.reader).Read") && name != "(desync.reader).ReadHeader" && st.Flags["type"] == 1 && st.Flags["done"] == 0 {
+				reads++
+				st.Flags["done"] = 1
+				if st.Flags["size"] == 0 {
+					bad = append(bad, fmt.Sprintf("%s reads element data at %s although the size field was not found equal to %d (trail %s)", el.name, c.pos(call.Pos()), el.size, strings.Join(st.Trail, ">")))
+				}
+			}
+			return nil
+		}
+		h.Stop = func(st *State) bool { return st.Flags["done"] == 1 || st.Flags["othertype"] == 1 }
+		Explore(fn, fn.Blocks[0], 0, nil, NewState(), h)
+		c.paths += h.Paths
+		key := fmt.Sprintf("FormatDecoder.Next:fixed-size-%d", el.size)
+		switch {
+		case h.Truncated:
+			c.bad(key, fn.Pos(), "path exploration truncated")
+		case len(bad) > 0:
+			c.bad(key, fn.Pos(), "no rejecting check of the size field against %d: %s", el.size, bad[0])
+		case reads == 0:
+			c.bad(key, fn.Pos(), "no path decodes %s", el.name)
+		default:
+			c.ok(key, fn.Pos(), "an element of fixed size %d (%s) is decoded only after its size field was found equal to %d (%d path(s))", el.size, el.name, el.size, h.Paths)
+		}
 	}
 }
 
